@@ -16,11 +16,11 @@ import (
 // model says it sees.
 
 type verifStream struct {
-	rd      net.Conn
+	rd       net.Conn
 	rfd, wfd int
-	written int64
-	stop    int32
-	done    chan struct{}
+	written  int64
+	stop     int32
+	done     chan struct{}
 }
 
 func verifInq(fd int) int {
